@@ -8,6 +8,11 @@ Deviations from DESIGN.md section 4, both forced by reading the code:
     is_triggered_by_table_action guard.
   * R5 is added: the end-of-bundle auto-removal must be iterated to a fixpoint ("rows whose group
     became empty are gone" after the bundle).
+
+Reading the code: every rule function is evaluated through H.guarded_views -- on the source as
+written and on behaviour-preserving normal forms of it (see _h_C.py / _h_C_norm.py) -- and slots
+are filled by role (flow origins, guard atoms, return cases, conditions as boolean formulas),
+not by statement shape or local names.
 """
 import ast
 from ..fn import World
@@ -179,14 +184,14 @@ def r1_flag_agreement(run, w):
            H.is_self_attr(s.targets[0], ctx.flag) and not
            (isinstance(s.value, ast.Constant) and s.value.value is None)]
   fl = _single(flags, "_rebuild_model: definition of the simple flag")
-  v = fl.value
+  v = H.inline(H.Flow(rb), fl.value)
   ok = isinstance(v, ast.UnaryOp) and isinstance(v.op, ast.Not) and \
       isinstance(v.operand, ast.Call) and dotted(v.operand.func) == "any" and \
       isinstance(v.operand.args[0], ast.GeneratorExp)
   if ok:
     g = v.operand.args[0]
     ok = len(g.generators) == 1 and not g.generators[0].ifs and \
-        text(g.generators[0].iter) == text(wc.args[1]) and \
+        text(g.generators[0].iter) == text(H.inline(H.Flow(rb), wc.args[1])) and \
         isinstance(g.elt, ast.Call) and dotted(g.elt.func) == "isinstance" and \
         text(g.elt.args[0]) in ("%s.all_columns.get(%s)" % (text(src_attr),
                                                             text(g.generators[0].target)),
@@ -542,14 +547,20 @@ def r3_row_creation(run, w):
                 "creation guarded by is_triggered_by_table_action", floor=7)
   wr = ctx.writer
   # simple branch: delegates to lookupOrAddDerived with one keyword per group-by column
-  rets = H.returns_of(ctx.simple_def)
-  ok = len(rets) == 1 and isinstance(rets[0].value, ast.Call) and \
-      text(rets[0].value.func) == ctx.p_sum + ".lookupOrAddDerived" and \
-      not rets[0].value.args and len(rets[0].value.keywords) == 1 and \
-      rets[0].value.keywords[0].arg is None
+  from ..index import FuncInfo
+  from ..fn import Fn
+  sd = ctx.simple_def
+  sfn = Fn(w, FuncInfo(wr.fi.module, wr.fi.cls, sd, wr.qualname + "." + sd.name, wr.fi))
+  sflow = H.Flow(sfn)
+  scases = [c for c in H.return_cases(sd)]
+  v = H.inline(sflow, scases[0].value) if len(scases) == 1 and scases[0].value is not None \
+      else None
+  ok = isinstance(v, ast.Call) and not scases[0].atoms and \
+      text(v.func) == ctx.p_sum + ".lookupOrAddDerived" and \
+      not v.args and len(v.keywords) == 1 and v.keywords[0].arg is None
   if ok:
-    d = rets[0].value.keywords[0].value
-    rec = ctx.simple_def.args.args[0].arg
+    d = v.keywords[0].value
+    rec = sd.args.args[0].arg
     ok = isinstance(d, ast.DictComp) and len(d.generators) == 1 and \
         not d.generators[0].ifs and text(d.generators[0].iter) == ctx.p_groupby and \
         text(d.key) == text(d.generators[0].target) and \
